@@ -178,6 +178,39 @@ def _run_writer(kind: int, variant: int, declared: bool, two_deps: bool, dry_run
     return fs, obs, exc, text, path
 
 
+def _run_writer_twice(kind: int, variant: int):
+    """Two dependency updates of one run against the same manifest (what two dependency-adding codemods cause):
+    returns the file system, both ChangeSets' diffs, the original text and the path."""
+    store, path, text = _store(kind, variant, False)
+    pw.tomlkit = _Untraced(_tomlkit, ("load", "loads", "dump", "dumps"))
+    _OrigAdder.transform_module = _untraced_transform_module
+    sw.cst = _Untraced(_cst, ("parse_module", "MetadataWrapper"))
+    sw.SetupPyAddDependencies = _untraced_adder
+    fs = FakeFS({path: text})
+    for m in (pw, rw, sw, cw):
+        m.open = fs.open
+    _CP.fs = fs
+    cw.configparser = _CP
+    diffs, exc = [], None
+    try:
+        for dep in (DefusedXML, Security):
+            cs = DependencyManager(store, Path("/d")).write([dep], False)
+            diffs.append(None if cs is None else cs.diff)
+    except Exception as e:  # noqa
+        exc = type(e).__name__
+    finally:
+        import configparser
+
+        cw.configparser = configparser
+        pw.tomlkit = _tomlkit
+        sw.cst = _cst
+        sw.SetupPyAddDependencies = _OrigAdder
+        _OrigAdder.transform_module = _orig_transform_module
+        for m in (pw, rw, sw, cw):
+            del m.open
+    return fs, diffs, exc, text, path
+
+
 def _dry_writer(kind: int, variant: int, declared: bool, two_deps: bool) -> bool:
     fs_d, obs_d, exc_d, text, path = _run_writer(kind, variant, declared, two_deps, True)
     fs_r, obs_r, exc_r, _, _ = _run_writer(kind, variant, declared, two_deps, False)
